@@ -85,11 +85,13 @@ Proof.
   assert (loc_of s to = n_loc t) as Etl by (rewrite <- Etid; apply loc_of_in; auto).
   assert (ids_ok (n_loc t :: locs (reps_of s vid))) as Hids.
   { apply (ids_ok_cons_cl s (init_world s) vid t); auto. apply init_WInv. }
-  unfold pv. cbn [prop_step]. rewrite Hw, Hat. cbn [ok_coloc ok_repair ok_pres]. split; [|split; auto].
+  unfold pv. cbn [prop_step]. rewrite Hw, Hat. cbn [ok_coloc ok_repair ok_pres]. split; [|split].
   - destruct (holds (reps_of s vid) to) eqn:E; auto. apply holds_iff in E.
     exfalso. eapply satisfy_no_coloc; eauto. change (l_node (n_loc t)) with (n_id t). rewrite Etid. auto.
   - rewrite Etl. destruct (sub_placement _ (locs (reps_of s vid))) eqn:Es; auto. cbn [implb].
     apply sub_placement_iff. apply satisfy_SubP; auto. apply sub_placement_iff; auto.
+  - (* the volume was not satisfied: satisfyReplicaPlacement refuses every copy otherwise *)
+    rewrite (satisfy_not_valid _ _ _ Hids Hsat). reflexivity.
 Qed.
 
 Lemma copy_step_other : forall s w vid from to vid', vid' <> vid ->
@@ -162,28 +164,86 @@ Proof.
   pose proof (find_none _ _ E r Hr) as Hn. cbn beta in Hn. congruence.
 Qed.
 
-(* volume.fix.replication (dry-run plan), any -retry *)
+Lemma existsb_false : forall {A} (f : A -> bool) l x, existsb f l = false -> In x l -> f x = false.
+Proof.
+  intros A f l x H Hx. destruct (f x) eqn:E; auto.
+  assert (existsb f l = true) by (apply existsb_exists; exists x; auto). congruence.
+Qed.
+
+(* a clause that holds on the whole trace needs no excuse *)
+Lemma excused_of_pres : forall trig s tr w, ok_pres (prop_trace s w tr) = true ->
+  excused ok_pres trig s w tr = true.
+Proof.
+  intros trig s tr. induction tr as [|st tr IH]; intros w H; [reflexivity|].
+  rewrite prop_trace_cons in H. unfold v4_and in H. cbn [ok_pres] in H.
+  apply andb_true_iff in H. destruct H as [H1 H2].
+  cbn [excused]. rewrite H1, (IH _ H2). reflexivity.
+Qed.
+Lemma excused_of_cap : forall trig s tr w, ok_cap (prop_trace s w tr) = true ->
+  excused ok_cap trig s w tr = true.
+Proof.
+  intros trig s tr. induction tr as [|st tr IH]; intros w H; [reflexivity|].
+  rewrite prop_trace_cons in H. unfold v4_and in H. cbn [ok_cap] in H.
+  apply andb_true_iff in H. destruct H as [H1 H2].
+  cbn [excused]. rewrite H1, (IH _ H2). reflexivity.
+Qed.
+
+Lemma fix_under_no_purge : forall s evs planned pending w,
+  fix_under_run s planned pending evs = true ->
+  all_steps purge_count_ok s w (fix_steps evs) = true.
+Proof.
+  intros s evs. induction evs as [|e evs IH]; intros planned pending w H; [reflexivity|].
+  destruct e as [vid|vid at_|vid from to|vid]; cbn [fix_under_run] in H; try discriminate.
+  - apply andb_true_iff in H. destruct H as [_ Hrec].
+    cbn [fix_steps flat_map app]. fold (fix_steps evs). unfold all_steps. cbn [excused purge_count_ok orb andb].
+    eapply IH; eauto.
+  - apply andb_true_iff in H. destruct H as [_ Hrec].
+    cbn [fix_steps flat_map app]. fold (fix_steps evs). eapply IH; eauto.
+Qed.
+
+(* volume.fix.replication (dry-run plan), any -retry.  The placement clause of a purge holds
+   only outside the trigger of finding 3 (pickOneReplicaToDelete ranks by age alone). *)
 Theorem fix_accepts_safe : forall s retry evs, wf_snap s -> fix_accepts s retry evs = true ->
   ok_coloc (prop_trace s (init_world s) (fix_steps evs)) = true /\
   ok_repair (prop_trace s (init_world s) (fix_steps evs)) = true /\
-  ok_pres (prop_trace s (init_world s) (fix_steps evs)) = true.
+  excused ok_pres step_delete_trig s (init_world s) (fix_steps evs) = true /\
+  all_steps purge_count_ok s (init_world s) (fix_steps evs) = true.
 Proof.
   intros s retry evs Hwf H. unfold fix_accepts in H.
   destruct s as [|n0 s0] eqn:Es; [destruct evs; [cbn; auto|discriminate]|]. rewrite <- Es in *.
   destruct (take_overs evs) as [overs rest] eqn:Et. rewrite (take_overs_steps _ _ _ Et).
   apply andb_true_iff in H. destruct H as [_ H].
   destruct (over_vids s) as [|ov ovs] eqn:Eo.
-  - apply (fix_under_safe s rest (fun _ _ => 0%Z) (under_vids s)); auto. apply under_vids_nodup.
-  - destruct rest as [|[| vid at_ | |] [|? ?]]; try discriminate.
-    apply andb_true_iff in H. destruct H as [Hmem Hdel]. apply mem_N_iff in Hmem.
-    cbn [fix_steps flat_map app prop_trace]. unfold v4_and, v4_true. cbn [prop_step init_world w_reps].
+  - destruct (fix_under_safe s rest (fun _ _ => 0%Z) (under_vids s) (init_world s)) as [Hc [Hr Hp]]; auto.
+    { apply under_vids_nodup. }
+    split; auto. split; auto. split; [apply excused_of_pres; auto|].
+    eapply fix_under_no_purge; eauto.
+  - destruct overs as [|v0 overs']; [discriminate|].
+    destruct rest as [|[| vid at_ | |] [|? ?]]; try discriminate.
+    apply andb_true_iff in H. destruct H as [H Hdel]. apply andb_true_iff in H. destruct H as [_ Hmem].
+    apply mem_N_iff in Hmem.
+    cbn [fix_steps flat_map app prop_trace]. unfold all_steps. cbn [excused]. unfold v4_and, v4_true.
+    cbn [prop_step init_world w_reps step_delete_trig purge_count_ok].
     pose proof (delete_ok_holds _ _ Hdel) as Hh. destruct (holds_replica_at _ _ Hh) as [r Hr]. rewrite Hr.
     destruct (reps_of s vid) as [|r0 rs'] eqn:Er; [discriminate|].
-    cbn [ok_coloc ok_repair ok_pres]. repeat split; auto. rewrite andb_true_r. apply Nat.leb_le.
-    pose proof (remove_at_length _ _ Hh) as Hl.
-    assert (In vid (over_vids s)) as Hov by (rewrite Eo; exact Hmem).
-    unfold over_vids in Hov. apply filter_In in Hov. destruct Hov as [_ Hov]. apply Nat.ltb_lt in Hov.
-    rewrite Er in Hov. cbn [head_rp] in Hov. lia.
+    cbn [ok_coloc ok_repair ok_pres].
+    assert (copy_count (rp_of_byte (v_rp (r_info r0))) <=? length (remove_at at_ (r0 :: rs')) = true) as Hcnt.
+    { apply Nat.leb_le. pose proof (remove_at_length _ _ Hh) as Hl.
+      assert (In vid (over_vids s)) as Hov by (rewrite Eo; exact Hmem).
+      unfold over_vids in Hov. apply filter_In in Hov. destruct Hov as [_ Hov]. apply Nat.ltb_lt in Hov.
+      rewrite Er in Hov. cbn [head_rp] in Hov. lia. }
+    repeat split; auto.
+    + (* placement: excused by the trigger, or really preserved *)
+      rewrite andb_true_r. rewrite Hcnt. cbn [andb].
+      destruct (delete_pres_trig (r0 :: rs')) eqn:Etr; [apply orb_true_r|]. rewrite orb_false_r.
+      unfold delete_pres_trig in Etr. cbn [head_rp] in Etr.
+      destruct (has_valid_subset (rp_of_byte (v_rp (r_info r0))) (locs (r0 :: rs'))) eqn:Eh; [|reflexivity].
+      cbn [andb implb] in *.
+      unfold delete_ok in Hdel. apply existsb_exists in Hdel. destruct Hdel as [x [Hx Hd]].
+      apply andb_true_iff in Hd. destruct Hd as [Hat Hmin]. apply N.eqb_eq in Hat.
+      pose proof (existsb_false _ _ x Etr Hx) as Hno. cbn beta in Hno.
+      rewrite Hmin, Hat in Hno. cbn [andb] in Hno. apply negb_false_iff in Hno. exact Hno.
+    + cbn [head_rp]. rewrite Hcnt. reflexivity.
 Qed.
 
 (* ---------- free slots by the true count ---------- *)
@@ -266,7 +326,8 @@ Proof.
     + apply counts_okb_ok; auto.
     + split; intros; lia.
     + apply under_vids_nodup.
-  - destruct rest as [|[| vid at_ | |] [|? ?]]; try discriminate.
+  - destruct overs as [|v0 overs']; [discriminate|].
+    destruct rest as [|[| vid at_ | |] [|? ?]]; try discriminate.
     apply andb_true_iff in H. destruct H as [Hmem Hdel].
     cbn [fix_steps flat_map app prop_trace]. unfold v4_and, v4_true. cbn [prop_step init_world w_reps].
     pose proof (delete_ok_holds _ _ Hdel) as Hh. destruct (holds_replica_at _ _ Hh) as [r Hr]. rewrite Hr.
